@@ -19,6 +19,7 @@ struct PeerStream {
     responded: bool,      // client role: peer sent final response HEADERS
     we_reset: bool,       // we sent RST_STREAM
     we_reset_code: u32,
+    odd_head: bool,       // the peer's head was unusual (content-length, 204, malformed): not a stream for C09's DATA entries
     peer_reset: bool,     // the peer sent RST_STREAM
 }
 
@@ -370,7 +371,9 @@ impl<'a> G<'a> {
                         }
                     }
                     if !informational {
+                        let odd = block != vec![0x88];
                         if let Some(s) = self.streams.get_mut(&sid) {
+                            s.odd_head = odd;
                             s.responded = true;
                             if eos {
                                 s.peer_closed = true;
@@ -517,11 +520,13 @@ impl<'a> G<'a> {
                     7 => block = vec![0x82, 0x86, 0x04, 0x00, 0x41, 0x01, b'a'],        // empty :path
                     _ => {}
                 }
+                let mut odd = false;
                 if self.rng.chance(1, 8) {
                     block.extend_from_slice(&[0x0f, 0x0d, 0x02, b'1', b'0']); // content-length: 10
+                    odd = true;
                 }
                 let iws = self.our_iws;
-                self.streams.insert(sid, PeerStream { credit: iws, headers_seen: true, peer_closed: eos, ..Default::default() });
+                self.streams.insert(sid, PeerStream { credit: iws, headers_seen: true, peer_closed: eos, odd_head: odd, ..Default::default() });
                 self.peer(wire(1, 4 | if eos { 1 } else { 0 }, sid, &block));
             }
             8..=25 => {
@@ -676,7 +681,7 @@ impl<'a> G<'a> {
             return;
         }
         // streams by state, from the peer's point of view
-        let open_both = self.live_sids(|s| s.headers_seen && !s.peer_closed && !s.we_closed && (s.responded || !client));
+        let open_both = self.live_sids(|s| s.headers_seen && !s.peer_closed && !s.we_closed && (s.responded || !client) && !s.odd_head);
         let peer_done = self.live_sids(|s| s.headers_seen && s.peer_closed && !s.we_closed && s.responded);
         let unused_peer_id: u32 = if client { 2 + 2 * self.rng.below(50) as u32 } else { self.next_peer_sid + 2 * self.rng.below(3) as u32 };
         let some_sid = *open_both.first().unwrap_or(&0);
@@ -707,6 +712,27 @@ impl<'a> G<'a> {
             ("tolerate", 0, wire(2, 0, 1 + 2 * self.rng.below(60) as u32, &[0, 0, 0, 0, 200])), // PRIORITY anywhere
             ("tolerate", 0, wire(2, 0, 2 + 2 * self.rng.below(60) as u32, &[0x80, 0, 0, 3, 0])),
         ];
+        // a header block must be contiguous (RFC 9113 section 4.3): anything but the CONTINUATION of the same stream
+        // between its fragments is a connection error — known types, other streams, and unknown types alike
+        {
+            let hsid = if client { some_sid.max(1) } else { self.next_peer_sid + 2 };
+            let head = if client { wire(1, 0, hsid, &[0x88]) } else { wire(1, 0, hsid, &[0x82, 0x86, 0x84, 0x41, 0x01, b'a']) };
+            let tail = wire(9, 4, hsid, &[0x00, 0x01, b'x', 0x01, b'y']);
+            for mid in [
+                wire(0x2a, 0, hsid, b"ext"),                         // extension frame on the same stream
+                wire(0x17, 0, 0, &[]),                               // extension frame on stream 0
+                wire(6, 0, 0, &[1; 8]),                              // PING
+                wire(8, 0, 0, &5u32.to_be_bytes()),                  // WINDOW_UPDATE
+                wire(9, 4, hsid + 2, &[0x00, 0x01, b'x', 0x01, b'y']), // CONTINUATION of another stream
+                wire(0, 0, hsid, b"d"),                              // DATA
+            ] {
+                let mut b = head.clone();
+                b.extend(mid);
+                b.extend(tail.clone());
+                cands.push(("conn", 0, b));
+            }
+        }
+        let n_generic = cands.len();
         if client {
             cands.push(("conn", 0, wire(1, 4, unused_peer_id, &[0x88])));                         // server opens a stream with HEADERS
             cands.push(("conn", 0, wire(5, 4, some_sid.max(1), &[0, 0, 0, 1, 0x82, 0x86, 0x84]))); // PUSH_PROMISE promising an odd id
@@ -733,7 +759,9 @@ impl<'a> G<'a> {
             if self.conn_credit >= 4 {
                 cands.push(("streamorconn", *sid, wire(0, 0, *sid, b"late")));                    // DATA after END_STREAM
             }
-            cands.push(("tolerate", *sid, wire(8, 0, *sid, &5u32.to_be_bytes())));                // WINDOW_UPDATE on a half-closed stream
+            if self.send_window(*sid) < 0x7fff_0000 {
+                cands.push(("tolerate", *sid, wire(8, 0, *sid, &5u32.to_be_bytes())));            // WINDOW_UPDATE on a half-closed stream
+            }
         }
         // frames for a stream the endpoint has just reset (it must tolerate what was in flight)
         let reset_by_us: Vec<u32> = self.streams.iter().filter(|(_, s)| s.we_reset && !s.peer_reset && s.headers_seen).map(|(k, _)| *k).collect();
@@ -746,7 +774,9 @@ impl<'a> G<'a> {
             if self.conn_credit >= 9 {
                 cands.push((race, *sid, wire(0, 0, *sid, b"in flight")));
             }
-            cands.push((race, *sid, wire(8, 0, *sid, &100u32.to_be_bytes())));
+            if self.send_window(*sid) < 0x7fff_0000 {
+                cands.push((race, *sid, wire(8, 0, *sid, &100u32.to_be_bytes())));
+            }
             cands.push((race, *sid, wire(3, 0, *sid, &8u32.to_be_bytes())));
             if client {
                 cands.push((race, *sid, wire(1, 5, *sid, &[0x88])));
@@ -760,7 +790,13 @@ impl<'a> G<'a> {
                 }
             }
         }
-        let (class, sid, bytes) = cands[self.rng.below(cands.len() as u64) as usize].clone();
+        // the state-dependent entries (everything after the generic ones) are the rarer and more interesting half
+        let pick = if cands.len() > n_generic && self.rng.chance(3, 5) {
+            n_generic + self.rng.below((cands.len() - n_generic) as u64) as usize
+        } else {
+            self.rng.below(cands.len() as u64) as usize
+        };
+        let (class, sid, bytes) = cands[pick].clone();
         self.op(format!("cn_note c09 {} {}", class, sid));
         self.peer(bytes);
         self.op("cn_poll".to_string());
@@ -805,8 +841,8 @@ pub fn generate(profile: &str, rng: &mut Rng, cases: usize, out: &mut dyn Write)
             cws = *rng.pick(&[65535i64, 100000, 1 << 20]);
             opts.push(format!("cws={}", cws));
         }
-        if rng.chance(1, 3) {
-            opts.push(format!("mcs={}", *rng.pick(&[0u32, 1, 2, 5])));
+        if rng.chance(1, 3) || (flavor == "c09" && role == "server" && rng.chance(1, 3)) {
+            opts.push(format!("mcs={}", *rng.pick(&[0u32, 1, 2, 5, 1, 1])));
         }
         if rng.chance(1, 3) {
             opts.push(format!("sendbuf={}", *rng.pick(&[0usize, 10, 1000, 100000])));
